@@ -353,6 +353,21 @@ class Splicer:
                 brace = pos + len(line.rstrip()) - 1
                 self.add(pos + k + len('match '), '{ let vshim_scrut = ', tag)
                 self.add(brace, '; proof {\n%s\n} vshim_scrut } ' % text, tag)
+            elif a[0] in ('before_all', 'after_all'):
+                # the same hint at every source line of the body that matches (at least one)
+                seg = self.body[f.body_open:f.body_close]
+                pos, hits = f.body_open, []
+                for l in seg.split('\n'):
+                    if re.search(a[1], l):
+                        hits.append(pos)
+                    pos += len(l) + 1
+                if not hits:
+                    raise AnchorLost('%s: anchor /%s/ matches no line' % (f.path, a[1]))
+                for h in hits:
+                    if a[0] == 'before_all':
+                        self.add(h, block, tag)
+                    else:
+                        self.add(self.body.index('\n', h) + 1, block, tag)
             elif a[0] in ('before', 'after'):
                 pos = self.find_line(f, a[1], anchor)
                 if a[0] == 'before':
